@@ -672,6 +672,8 @@ def run(chk):
         raise core.AnalysisBroken("only %d token cursors found (UDQParser, Action::Parser, Action::Condition, make_udq_tokens are four on the pinned tree)" % n_cursors)
     from verif import fallthrough
     fallthrough.run(chk, "C20", floor=20)
+    from verif import argorder
+    argorder.run(chk, "C20", floor=160)
 
     chk.assumptions += [
         "C20.cursor: a token fetched at the cursor has type `end` exactly when the cursor is at the end (checked: the fetch returns the end token under its at-end test); predicates P(token.type) are false for `end`",
